@@ -8,6 +8,7 @@ from .. import libx
 from bitcoin.core import CBlock, CTransaction, ValidationError
 
 ID = 'C15'
+THREADSAFE = True      # cases touch no process-wide setting (no chain selection): the runner also runs them from several threads at once
 LEVEL = 'exploration'
 RULE = ('blocks of n cheap distinct transactions for EVERY n in 1..70 (quick) / 1..300 and 2^k-1,2^k,2^k+1 up to 1025 (thorough), '
         'each with several generated witness subsets (incl. coinbase) and duplicate placements (adjacent and not): '
@@ -74,11 +75,25 @@ def check_case(case):
             o.GetTxid(); o.GetHash(); hash(o); o.calc_weight()
             o.nLockTime = t['locktime']
             vtx.append(o)
+        elif case.get('user_cls'):
+            # a caller's own subclass of the transaction class whose == / hash() go by txid only (two entries that differ in
+            # witness alone are "equal" to it - the trees are still built from what each entry IS)
+            vtx.append(libx.user_tx(t))
         else:
             vtx.append(libx.mk_tx(t, False))
+        if (i + case['salt']) % 3 == 0:
+            # the stripped form asked for FIRST, through the documented parameter, before anything else looks at the object
+            if libx.call('serialize-stripped', vtx[-1].serialize, {'include_witness': False})[1] != W.enc_tx(t, False):
+                raise Violation('tx/serialize-stripped', 'serialize(include_witness=False) is not the stripped encoding')
     b = libx.call('construct', CBlock, vtx=vtx)[1]
     if b.hashMerkleRoot != root:
         raise Violation('root/filled-in', 'n=%d: zero declared root was filled with %s, reference %s' % (n, b.hashMerkleRoot.hex(), root.hex()))
+    # the static tree builders, given the caller's own objects
+    if tuple(libx.call('build_merkle_tree_from_txs', CBlock.build_merkle_tree_from_txs, vtx)[1])[-1] != root:
+        raise Violation('root/static-builder', 'n=%d: build_merkle_tree_from_txs(...)[-1] != reference' % n)
+    if any(W.has_witness(t) for t in txs):
+        if tuple(libx.call('build_witness_merkle_tree_from_txs', CBlock.build_witness_merkle_tree_from_txs, vtx)[1])[-1] != M.witness_root([W.wtxid(t) for t in txs]):
+            raise Violation('wroot/static-builder', 'n=%d: build_witness_merkle_tree_from_txs(...)[-1] != reference' % n)
     if len(b.vtx) != n or any(o.serialize() != W.enc_tx(t) for t, o in zip(txs[:4] + txs[-1:], tuple(b.vtx[:4]) + tuple(b.vtx[-1:]))):
         raise Violation('vtx/changed', 'n=%d: the transactions held by the constructed block are not the transactions given' % n)
     if libx.call('calc_merkle_root', b.calc_merkle_root)[1] != root:
@@ -157,7 +172,7 @@ def s_variant(draw, n):
             'wit_mask': draw(st.one_of(st.sampled_from([1, 2, (1 << 64) - 1, 1 << 63]), st.integers(0, (1 << 64) - 1))),
             'dups': draw(st.lists(st.tuples(st.integers(0, 400), st.integers(0, 400)), max_size=3)) if draw(st.booleans()) else
             ([[n - 1, n - 2]] if n >= 2 and draw(st.booleans()) else []),
-            'mutable_every': draw(st.sampled_from([0, 0, 1, 2, 3])), 'cb': draw(st.sampled_from([0, 0, 0, 1, 2, 3, 4, 5]))}
+            'mutable_every': draw(st.sampled_from([0, 0, 1, 2, 3])), 'cb': draw(st.sampled_from([0, 0, 0, 1, 2, 3, 4, 5])), 'user_cls': draw(st.integers(0, 3)) == 0}
 
 
 def t_every_n(ctx):
